@@ -352,6 +352,40 @@ func (g *mgen) stmt(f *mfile, sc *scope, allowExport bool) {
 			sc.vals = append(sc.vals, n1, n2)
 			g.note("pure:array-destructure")
 		}
+	case k >= 28 && k < 30: // EMPTY function whose default parameters have effects: a call to it is not removable (5379ad1)
+		n := g.name(f, "fn")
+		form := r.Intn(5)
+		switch form {
+		case 0:
+			add(exp(n, "fn") + "function " + n + "(a = " + g.hidden(f) + ") {}")
+		case 1:
+			add(exp(n, "fn") + "function " + n + "(a, b = " + g.hidden(f) + ", c = " + g.hidden(f) + ") {}")
+		case 2:
+			add("const " + n + " = (a = " + g.hidden(f) + ") => {};")
+		case 3:
+			add("const " + n + " = function (a = " + g.hidden(f) + ") {};")
+		default:
+			add(exp(n, "fn") + "function " + n + "({ a = " + g.hidden(f) + " } = {}, [b = " + g.hidden(f) + "] = []) {}")
+		}
+		// unused calls in every position the minifier / tree shaking inspects
+		for q := r.Range(1, 2); q > 0; q-- {
+			switch r.Intn(6) {
+			case 0:
+				add(n + "();")
+			case 1:
+				add(n + "(undefined);")
+			case 2:
+				add(r.Pick([]string{"const", "let", "var"}) + " " + g.name(f, "h") + " = " + n + "();")
+			case 3:
+				add("void " + n + "(), 0;")
+			case 4:
+				add(n + "(void 0, undefined);")
+			default:
+				add("[" + n + "()];")
+			}
+		}
+		sc.vals = append(sc.vals, n)
+		g.note("wrap:empty-fn-effectful-default")
 	case k < 30: // default parameter / pure function with hidden default, maybe called
 		n := g.name(f, "fn")
 		add(exp(n, "fn") + "function " + n + "(a = " + g.hidden(f) + ", { b = " + g.hidden(f) + " } = {}) { return [a, b]; }")
